@@ -60,7 +60,7 @@ class WeightChanges(BoxPortfolio):
 
 
 class World:
-    def __init__(self, model, cfg, reward_kind):
+    def __init__(self, model, cfg, reward_kind, wbounds=None):
         self.model = model
         self.cfg = cfg
         self.base = datetime(*model["base"])
@@ -115,12 +115,20 @@ class World:
         # every other case a user feature values the account on every quote (a valuation marks the account to market; it is
         # neutral for everything a property speaks of)
         kw = {"state": [Valuer()]} if (len(cfg["events"]) + cfg["lat"] + cfg["delay"]) % 2 == 1 else {}
+        wfeat = None
+        if wbounds is not None:
+            # the library's portfolio-weight feature with its default transformer, fitted on this environment's own bounds
+            from tradingenv.library import FeaturePortfolioWeight
+            wfeat = FeaturePortfolioWeight(space_contracts, -float(wbounds), float(wbounds))
+            kw = {"state": list(kw.get("state", [])) + [wfeat]}
         space_cls = WeightChanges if model.get("relative") else BoxPortfolio
         self.env = TradingEnv(action_space=space_cls(space_contracts, low=-4.0, high=4.0, margin=float(model["thr"]),
                                                          fractional=bool(model.get("fractional", True)),
                                                          as_weights=model.get("measure", "weight") == "weight"),
                               reward=reward, transmitter=tr, broker_fees=fees, latency=cfg["lat"],
                               steps_delay=cfg["delay"], initial_cash=float(model["deposit"]), **kw)
+        if wfeat is not None:
+            wfeat.fit_transformer()
         self.rewards = []
         self.nlv0 = None
 
